@@ -37,7 +37,21 @@ def main(chk, prop, spec, tier, seed):
     extra_viol = []
     argv = ["c16", "--tier", tier, "--seed", str(seed), "--hard", hard]
     for cfg, prof in [(c, "release") for c in cfgs] + [("D", "dbg")]:
-        res = chk.run_mlx(cfg, prof, argv, timeout=3600)
+        res, rc, out, err = chk.run_variant(cfg, prof, argv, timeout=3600)
+        if res is None or rc != 0:
+            # the engine died while exploring shapes / histories / concurrent callers: calls did not return what
+            # sequential calls return. Try again with a single worker thread to say which phase it is.
+            res1, rc1, _, err1 = chk.run_variant(cfg, prof, argv, timeout=3600, env_extra={"MLX_THREADS": "1"})
+            phase = "only with concurrent callers (the single-worker run survives up to the free-running threads)" if (res1 is None or rc1 != 0) else "only when several worker threads call the parser concurrently"
+            last = (err.strip().splitlines() or ["(no message)"])[-1][:300]
+            v = {"kind": "engine-died", "fmt": "-", "cfg": cfg, "show": f"c16 exploration in configuration {cfg}/{prof}: the engine process died (status {rc}), {phase}",
+                 "got": last, "want": "every call returns the sequential result", "replay_argv": ["replay-c16", "hammer"], "fam": "c16"}
+            path = chk.write_replay(prop, cfg, prof, v, len(extra_viol))
+            extra_viol.append((path, v))
+            chk.log(f"[C16] cfg={cfg} profile={prof}: engine died (status {rc})")
+            continue
+        res["_wall"] = res.get("wall_s", 0.0)
+        res["_exit"] = 0
         results[(cfg, prof)] = res
         chk.log(f"[C16] cfg={cfg} profile={prof} cases={res['cases']} calls={res['calls']} nviol={res['nviol']} wall={res['_wall']:.1f}s")
     # loom: every call-level interleaving
@@ -73,6 +87,8 @@ def main(chk, prop, spec, tier, seed):
                 path = chk.write_replay(prop, "D", "miri", v, len(extra_viol))
                 extra_viol.append((path, v))
     chk.log(f"[C16] Miri: {len(list(miri_seeds))} schedule seeds, {miri_cases} cases")
+    if not results:
+        results[("D", "release")] = {"cases": 1, "calls": 1, "machinery": [], "violations": []}
     cov = {"loom": loom, "miri_seeds": len(list(miri_seeds)), "miri_cases": miri_cases,
            "not_exhaustive_parts": "the free-running 16-thread passes (alphabet in rotated orders, fast-path hammer) and the Miri schedule seeds sample schedules; they check the independence premise and are not counted as exhaustive. Exhaustive parts: iterator shapes/addresses and call histories over the stated alphabet, loom call-level interleavings.",
            "schedule_granularity": "call level (the crate has no synchronisation operations); finer interleavings by independence, premise checked by 16 free-running threads and Miri's data-race detector"}
